@@ -48,13 +48,13 @@ CLAIMED = {
          "of multinomial outcomes, and an enumeration oracle on all four tomography types.",
     design="§4 C19, §9", technique="Lean 4 proof (induction on the sample size over an exact multinomial model) + correspondence incl. exact enumeration"),
  "C02": dict(
-    text="Lean 4 proofs (32 theorems, all d and n, any commutative star-ring including the executed Gaussian-rational instance) about an "
+    text="Lean 4 proofs (all d and n, any commutative star-ring including the executed Gaussian-rational instance) about an "
          "executable model of every conversion in state/povm/gate/matrix_basis: agreement of the loop, dict and sparse implementations; "
          "defining formulas; all round trips under orthonormality (completeness proved by dimension count); linearity; basis-change round "
          "trips; exact truncate_hs behaviour. The model is tied to the code by exact-rational differential checking on complete bases plus "
          "physical, non-physical and complex inputs (1 qubit and qutrit quick; 2 qubits and qubit x qutrit thorough) and by an independent "
-         "numpy oracle computed from the channel action. Kraus extraction is proved only up to the eigh contract (kraus_roundtrip_partial); "
-         "float rounding is not modelled.",
+         "numpy oracle computed from the channel action. Kraus round trip proved for the executable extraction under the explicit eigh/sqrt "
+         "contract; process matrix = Choi and column-major = permuted row-major proved for every basis. Float rounding is not modelled.",
     design="§4 C02, §9", technique="Lean 4 proof over a star-ring model + model/implementation correspondence on complete bases + channel-action oracle"),
  "C01": dict(
     text="Proved (rationals, all sizes): verdict <=> defect <= atol for every call site whose relative tolerance, REGENERATED FROM THE SOURCE on "
